@@ -82,6 +82,7 @@ def random_shape(rng, version):
             mx = rng.choice([1, 5, 40])
             sh["pad13"] = lambda r, mx=mx: r.randrange(0, mx + 1)
         sh["tickets"] = rng.randrange(0, 3)
+        sh["ccs13"] = rng.random() < 0.7
     else:
         sh["abbreviated"] = rng.random() < 0.3
         sh["sid_len"] = rng.choice([0, 1, 7, 16, 32]) if not sh["abbreviated"] else rng.choice([1, 16, 32])
@@ -226,6 +227,8 @@ class Mixed:
                 ep.update(cip=base["cip"], sip=base["sip"], cmac=base["cmac"], smac=base["smac"], cport=base["cport"] + 1 + i)
             elif pattern == "same-cport":
                 ep.update(cip=base["cip"], cmac=base["cmac"], cport=base["cport"])
+            elif pattern == "same-server":
+                ep.update(sip=base["sip"], smac=base["smac"], cport=base["cport"])
             conn = gen_tls.TcpConn(**ep)
             cut = random_cut(rng)
             flights, truth = sc.render()
@@ -238,9 +241,14 @@ class Mixed:
             feats = dict(quic_features[j]) if quic_features else {}
             if pattern != "random":
                 feats.setdefault("v6", len(base["cip"]) == 16)
+                qb = random_endpoints(rng, 50 + j, v6=len(base["cip"]) == 16)
+                if pattern == "same-hosts":
+                    feats["endpoints"] = {"cip": base["cip"], "sip": base["sip"], "cport": base["cport"] + 100 + j}
+                elif pattern == "same-cport":
+                    feats["endpoints"] = {"cip": base["cip"], "sip": qb["sip"], "cport": base["cport"]}
+                elif pattern == "same-server":
+                    feats["endpoints"] = {"cip": qb["cip"], "sip": base["sip"], "cport": base["cport"]}
             c, f = gen_quic.random_connection(rng, 100 + j, features=feats)
-            if pattern == "same-hosts":
-                pass     # QUIC endpoints are generated inside random_connection; kept distinct
             self.quic.append({"conn": c, "features": f, "keylog": c.keylog_lines()})
             per.append([fr for _, _, fr in c.items])
             self.kinds.append(("quic", len(self.quic) - 1))
@@ -264,7 +272,11 @@ class Mixed:
         while any(idx[i] < len(per[i]) for i in range(len(per))):
             live = [i for i in range(len(per)) if idx[i] < len(per[i])]
             i = rng.choice(live)
-            t += rng.randrange(1, 30_000)
+            # a coarse clock may give a QUIC answer the timestamp of the datagram it answers (opposite direction)
+            same_tick = (self.owners and self.owners[-1] == i and self.kinds[i][0] == "quic" and idx[i] > 0 and
+                         self.quic[self.kinds[i][1]]["conn"].dirs[idx[i]] != self.quic[self.kinds[i][1]]["conn"].dirs[idx[i] - 1]
+                         and rng.random() < 0.1)
+            t += 0 if same_tick else rng.randrange(1, 30_000)
             self.items.append(("pkt", t, per[i][idx[i]]))
             self.owners.append(i)
             idx[i] += 1
@@ -272,9 +284,7 @@ class Mixed:
         for j, q in enumerate(self.quic):
             me = [k for k, kd in enumerate(self.kinds) if kd == ("quic", j)][0]
             new_ts = [it[1] for it, o in zip(self.items, self.owners) if o == me]
-            old_ts = [it[1] for it in q["conn"].items]
-            m = dict(zip(old_ts, new_ts))
-            q["expect"] = [(m[t0], d, b) for t0, d, b in q["conn"].expect]
+            q["expect"] = [(new_ts[k], d, b) for k, (t0, d, b) in zip(q["conn"].expect_idx, q["conn"].expect)]
         kl = [l for c in self.tls + self.quic for l in c["keylog"]]
         rng.shuffle(kl)
         self.keylog = kl
